@@ -228,14 +228,15 @@ PROPS.update({
         note=_NOTE + ' Unsafe mode rests on the contract of post_process_emission (proved for TypeConfusionMutator in unit mutv).',
         assumptions=_CORE_ASSUME),
     'C07': dict(
-        title='Generation is a pure function of configuration and entropy input', verus=['core'], scans=['purity'], level='proof',
+        title='Generation is a pure function of configuration and entropy input', verus=['core'], scans=['purity', 'clidet'], level='proof',
         technique='Verus contract: memo key enumeration is canonical whatever order the hash map yields (sorted, unique); mechanical purity scan of the library sources; functional determinism of the verified functions',
         claim='Proof that the only order-dependent library call whose result can reach the output (HashMap key enumeration at the three GET sites) is '
               'canonicalised before use (for ANY enumeration order the chosen-from vector equals the unique ascending sequence of the key set), plus a '
               'mechanical scan showing no other source of nondeterminism (OS randomness, clocks, thread/process identity, mutable globals, address-dependent '
               'values, allocation capacities, hash-order iteration) occurs in the library outside whitelisted, justified sites.',
         note=_NOTE + ' The thread/process/schedule quantifier is discharged by a frame argument (a Generator owns all its state; the library has no shared mutable '
-             'state: scan), not by exploration. main.rs batch mode under rayon is outside every contract (by inspection: one fresh Generator per index).',
+             'state: scan), not by exploration. main.rs batch mode under rayon is outside every contract (one fresh Generator per index); it is cross-checked BOUNDED on the real binary '
+             '(xcheck.cli_determinism: single-file mode twice and batch mode with 1 and 8 workers must write identical bytes) and listed under bounded.',
         assumptions=_CORE_ASSUME + ['exec functions verified by Verus are deterministic functions of their arguments and of the results of the external functions they call',
                                     'rayon batch mode in main.rs is not covered (outside any function boundary a contract can be put on)']),
     'C08': dict(
